@@ -198,6 +198,21 @@ func minimiseOps(p *Plan, test func(*Plan) bool, deadline time.Time) *Plan {
 			}
 		}
 	}
+	// ---- repetition counts up: a defect that shows with probability < 1 per repetition (Go map
+	// iteration order cannot be seeded) should reproduce on (nearly) every replay of the file
+	{
+		c := cur.clone()
+		raised := false
+		for i := range c.Ops {
+			if c.Ops[i].K == "repeat" && c.Ops[i].R < 400 {
+				c.Ops[i].R = 400
+				raised = true
+			}
+		}
+		if raised && test(c) {
+			cur = c
+		}
+	}
 	if !test(cur) {
 		return nil
 	}
